@@ -136,8 +136,9 @@ func refGet(vars map[string]string, name string) (string, bool) {
 
 func jsonEscape(s string) string {
 	var sb strings.Builder
-	for _, r := range s {
-		switch r {
+	for i := 0; i < len(s); i++ {
+		// byte by byte: the escaped characters are ASCII, everything else (also bytes that are no valid UTF-8) is copied
+		switch r := s[i]; r {
 		case '\\':
 			sb.WriteString("\\\\")
 		case '"':
@@ -155,7 +156,7 @@ func jsonEscape(s string) string {
 		case '\t':
 			sb.WriteString("\\t")
 		default:
-			sb.WriteRune(r)
+			sb.WriteByte(r)
 		}
 	}
 	return sb.String()
@@ -360,6 +361,30 @@ func joinLex(ls []string) string {
 	return sb.String()
 }
 
+// values are strings of BYTES: what is no valid UTF-8 is rendered as it is, plainly and escaped
+func propTplBytes(c *Ctx) {
+	for _, v := range []string{"\xff", "caf\xe9", "a\x80\"b", "\xe4\xb8", "ok\xf0\x9f\x98/", "\xc3\x28\t"} {
+		op := "tplbytes " + fmt.Sprintf("%x", v)
+		c.record(op, true)
+		c.count("values-with-invalid-utf8")
+		note := ""
+		st := safeCallT(5*time.Second, func() string {
+			t := mustache.NewMustacheTemplate()
+			t.SetAutoVariables(false)
+			t.SetTemplate("[{{v}}|{{{v}}}|{{#v}}in{{/v}}]")
+			r, err := t.EvaluateWithVariables(map[string]string{"v": v})
+			want := "[" + v + "|" + jsonEscape(v) + "|in]"
+			if err != nil || r != want {
+				note = fmt.Sprintf("the value %q renders as %q (%v), expected %q: every byte of the value, escaped only where the escape table says so", v, r, err, want)
+			}
+			return ""
+		})
+		if st != "" || note != "" {
+			c.fail(Failure{Kind: "oracle", Op: op, Impl: st, Note: note})
+		}
+	}
+}
+
 func propTplMaps(c *Ctx) {
 	// the variable map is an input of every rendering: the SAME map object cleared and refilled with as many other keys, keys
 	// re-spelled in another case, default variables edited in place between two renderings
@@ -472,6 +497,7 @@ func propC10(c *Ctx) {
 		}
 	}
 	propTplMaps(c)
+	propTplBytes(c)
 	// variables that are literally called "if" / "unless": the bare '#' and '^' spellings are sections on those variables
 	for _, w := range []string{"unless", "if", "UNLESS", "If"} {
 		for _, mk := range []func() []*tnode{
@@ -511,7 +537,8 @@ func propC10(c *Ctx) {
 	}
 	rec(nil)
 	// the malformed classes the property names, at every nesting position
-	for _, bad := range []string{"{{#if a}}x{{/if b}}", "{{#a}}x{{/if b}}", "{{^a}}x{{/unless b}}", "{{#unless a}}x{{/unless b}}", "{{#a}}{{#b}}x{{/if a}}{{/if b}}",
+	for _, bad := range []string{"{{#if}}}x{{/if}}", "{{{#unless}}x{{/unless}}", "{{#unless}}}x{{/unless}}", "{{^if}}}x{{/if}}", "{{{^unless}}x{{/unless}}", "{{#if}}x{{/if}}}", "{{{#if a}}x{{/if}}",
+		"{{#if a}}x{{/if b}}", "{{#a}}x{{/if b}}", "{{^a}}x{{/unless b}}", "{{#unless a}}x{{/unless b}}", "{{#a}}{{#b}}x{{/if a}}{{/if b}}",
 		"{{a", "{{#a}}x", "x{{/a}}", "{{#a}}x{{/b}}", "{{a}}}", "{{{a}}", "{{#a}}{{#b}}x{{/a}}{{/b}}", "{{^a}}", "{{#if a}}x{{/unless}}{{/if}}", "{{/}}", "{{}}", "{{# }}x{{/}}", "{{a b}}", "{{!c"} {
 		o := runTemplate(bad, map[string]string{"a": "1", "b": "1"})
 		op := "tpl " + strRunes(bad)
@@ -526,6 +553,10 @@ func propC10(c *Ctx) {
 
 func replayTpl(c *Ctx, op string) {
 	if replaySeq(c, op) || replayEntry(c, op) {
+		return
+	}
+	if strings.HasPrefix(op, "tplbytes ") {
+		propTplBytes(c)
 		return
 	}
 	if strings.HasPrefix(op, "tplmap ") {
